@@ -47,9 +47,7 @@ func (c Case) tags() []flvref.Tag {
 
 func demux(file []byte, c Case, want []flvref.Tag) error {
 	var r io.Reader = bytes.NewReader(file)
-	if c.SegKind != 0 {
-		r = &xport.SegReader{R: r, Sched: xport.Sched(c.SegKind, c.Seg)}
-	}
+	r = xport.Segment(r, c.SegKind, c.Seg)
 	d, err := flv.NewDemuxer(r)
 	if err != nil {
 		return err
@@ -185,8 +183,8 @@ func TestFiles(t *testing.T) {
 			tg.Fill = rapid.Uint64().Draw(t, "fill")
 			c.Tags = append(c.Tags, tg)
 		}
-		c.SegKind = rapid.IntRange(0, 2).Draw(t, "segk")
-		if c.SegKind == 2 {
+		c.SegKind = rapid.IntRange(0, xport.SegKinds-1).Draw(t, "segk")
+		if c.SegKind == 2 || c.SegKind == 3 {
 			c.Seg = rapid.SliceOfN(rapid.IntRange(1, 40), 1, 8).Draw(t, "seg")
 		}
 		err := ev.Try(func() error { return runCase(c) })
@@ -218,7 +216,7 @@ func TestBigBodies(t *testing.T) {
 	rec := ev.New(prop, "big-bodies", "deterministic: one tag of 2^24-12, 2^24-11, 2^24-2 and 2^24-1 body bytes (PreviousTagSize crosses 2^24), followed by a small tag, whole and segmented reads; all non-trivial")
 	rec.Exhaustive()
 	for i, n := range []int{1<<24 - 12, 1<<24 - 11, 1<<24 - 2, 1<<24 - 1} {
-		c := Case{HasVideo: true, HasAudio: i%2 == 0, Tags: []T{{Type: 9, Ts: 1<<24 + uint32(i), Len: n, Fill: uint64(i + 1)}, {Type: 8, Ts: 5, Len: 3, Fill: 9}}, SegKind: 2 * (i % 2), Seg: []int{65536, 7}}
+		c := Case{HasVideo: true, HasAudio: i%2 == 0, Tags: []T{{Type: 9, Ts: 1<<24 + uint32(i), Len: n, Fill: uint64(i + 1)}, {Type: 8, Ts: 5, Len: 3, Fill: 9}}, SegKind: i % xport.SegKinds, Seg: []int{65536, 7}}
 		err := ev.Try(func() error { return runCase(c) })
 		rec.Case(true, ev.Hash(c), nil, func() any { return c })
 		if err != nil {
